@@ -163,4 +163,12 @@ def check(ctx):
             for x in cands:
                 if x[0] == "agg" and x[1] == "tuple" and len(x[3]) == 2 and x[3][1] == wp and mentions(x[3][0], sp):
                     found = True
+        if not found and name == "new":
+            # delegation idiom: new(selector, weight) = <empty DynWeighted>.with_selector(selector, weight)
+            for p in ps:
+                ws = [c for c in p.calls() if callee_is(c, "DynWeighted::with_selector")]
+                others = [c for c in p.calls() if not callee_is(c, "DynWeighted::with_selector", "Vec::new", "Default::default", "Vec::with_capacity")]
+                if len(ws) == 1 and not others and p.ret == ws[0] and len(ws[0][3]) == 3 and ws[0][3][1] == ("param", 1) and ws[0][3][2] == ("param", 2):
+                    base = ws[0][3][0]
+                    found = base[0] == "agg" and base[2].endswith("DynWeighted::DynWeighted") and len(base[3]) == 1 and callee_is(base[3][0], "Vec::new", "Default::default", "Vec::with_capacity")
         ctx.check(found, "R13.4", "DynWeighted::%s-stores-(selector,weight)" % name, "entry tuple = (Box(selector), weight)", f.at())
